@@ -174,6 +174,46 @@ fn held_handle(insertions: usize, v: &Mutex<Vec<(String, String)>>) {
     }
 }
 
+/// A Compound whose load pre-registers a placeholder under ITS OWN key: the sequential form of a lost
+/// insertion race (the insert after the load finds the key occupied).
+pub struct TSelf(pub i64);
+pub static SELF_ADDR: std::sync::atomic::AtomicUsize = std::sync::atomic::AtomicUsize::new(0);
+impl assets_manager::Compound for TSelf {
+    fn load(cache: assets_manager::AnyCache, id: &assets_manager::SharedString) -> Result<Self, assets_manager::BoxedError> {
+        let h = cache.get_or_insert::<TSelf>(id, TSelf(1));
+        SELF_ADDR.store(h as *const _ as usize, Ordering::SeqCst);
+        Ok(TSelf(2))
+    }
+}
+
+/// the insertion that loses keeps the first entry -- also without threads, on every front-end
+fn reentrant_insert(v: &Mutex<Vec<(String, String)>>, fillers: usize) {
+    fn check<'a>(label: &str, any: assets_manager::AnyCache<'a>, fillers: usize, v: &Mutex<Vec<(String, String)>>) {
+        SELF_ADDR.store(0, Ordering::SeqCst);
+        let h = any.load::<TSelf>("self").unwrap();
+        let first = SELF_ADDR.load(Ordering::SeqCst);
+        let a = h as *const _ as usize;
+        for i in 0..fillers {
+            let _ = any.get_or_insert::<SVal>(&format!("filler{i}"), SVal(V::new(i as i64, "filler")));
+        }
+        let later = any.get_cached::<TSelf>("self").map(|h| h as *const _ as usize);
+        let again = any.load::<TSelf>("self").unwrap() as *const _ as usize;
+        let val = h.read().0;
+        if a != first || later != Some(first) || again != first || val != 1 {
+            violation(
+                v,
+                "racers-disagree",
+                format!("{label}: a load whose loader registered a placeholder under its own key: placeholder {first:#x}, load {a:#x}, get_cached {later:x?}, second load {again:#x}, value {val} (the first entry, value 1, must be kept)"),
+            );
+        }
+    }
+    let mem = Mem::new(false);
+    let c = AssetCache::without_hot_reloading(mem.clone());
+    check("AssetCache", c.as_any_cache(), fillers, v);
+    let l = assets_manager::LocalAssetCache::with_source(Mem::new(false));
+    check("LocalAssetCache", l.as_any_cache(), fillers, v);
+}
+
 pub fn run(a: &Args) {
     trace_enable(false);
     let mut rng = Rng::new(a.seed);
@@ -204,6 +244,11 @@ pub fn run(a: &Args) {
         evals += 1;
         samples.push(format!("{{\"kind\": \"handle held across insertions\", \"insertions\": {n}}}"));
     }
+    for fillers in [0usize, 5000] {
+        reentrant_insert(&v, fillers);
+        evals += 2;
+    }
+    samples.push("{\"kind\": \"loader registers a placeholder under its own key (AssetCache, LocalAssetCache)\"}".to_string());
     let viol = v.into_inner().unwrap();
     if !viol.is_empty() {
         let mut f = String::new();
